@@ -38,6 +38,10 @@ def build(inp):
             data_vars['z_bnds'] = xarray.DataArray(zb, dims=['k', 'two'], attrs={'long_name': 'bounds'})
     coords[name] = xarray.DataArray(z, dims=['k'], attrs=attrs)
     coords[name].encoding['dtype'] = 'float64'
+    if inp.get('labels') and not inp['dimcoord']:
+        # the depth dimension carries its own index coordinate (layer numbers), unrelated to the direction of the depth values
+        lab = numpy.arange(n) if inp['labels'] == 'increasing' else numpy.arange(n)[::-1].copy()
+        coords['k'] = xarray.DataArray(lab, dims=['k'], attrs={'long_name': 'layer number'})
     extra = inp.get('second')
     if extra:
         coords['height'] = xarray.DataArray(-z, dims=['k'], attrs={'positive': 'up'})
@@ -58,6 +62,12 @@ def gen(tier, seed):
     for p, o in itertools.product(OPTS, OPTS):
         yield {'z': zs['dec+'], 'n': 4, 'attr': 'down', 'dimcoord': False, 'bounds': False, 'p': p, 'o': o,
                'second': True, 'zname': 'dec+two-coords'}
+    for (zn, z), attr, labels in itertools.product(zs.items(), ('down', 'up'), ('increasing', 'decreasing')):
+        if zn == 'two' and tier == 'quick':
+            continue
+        for p, o in itertools.product(OPTS, OPTS):
+            yield {'z': z, 'n': len(z), 'attr': attr, 'dimcoord': False, 'bounds': False, 'p': p, 'o': o, 'zname': zn + '-labelled-' + labels,
+                   'labels': labels}
 
 
 def snapshot(ds):
